@@ -340,6 +340,46 @@ func (w *parserWalker) walk(fn *ssa.Function, observe map[*ssa.Function]bool, do
 	return rec(start)
 }
 
+// blockParsers: the parser functions that call the statement parser themselves and yield a block — an *ast.BlockStmt
+// or the list of its statements (the program parser, which yields an *ast.Program, is not one).
+func (m *Model) blockParsers() []*ssa.Function {
+	ps := m.Method("parser", "Parser", "parseStatement")
+	if ps == nil {
+		return nil
+	}
+	var bps []*ssa.Function
+	for _, fn := range m.ModFns {
+		if fn.Blocks == nil || shortPkg(fnPkgPath(fn)) != "parser" || len(callsToFn(fn, ps)) == 0 {
+			continue
+		}
+		res := fn.Signature.Results()
+		if res.Len() != 1 {
+			continue
+		}
+		rt := res.At(0).Type()
+		if strings.HasSuffix(derefTypeString(rt), "ast.BlockStmt") {
+			bps = append(bps, fn)
+			continue
+		}
+		if sl, ok := rt.Underlying().(*types.Slice); ok && strings.HasSuffix(sl.Elem().String(), "ast.Statement") {
+			bps = append(bps, fn)
+		}
+	}
+	sort.Slice(bps, func(i, j int) bool { return fnKey(bps[i]) < fnKey(bps[j]) })
+	return bps
+}
+
+// blockParser: the one block parser (by its name, else the only function of that shape).
+func (m *Model) blockParser() *ssa.Function {
+	if pb := m.Method("parser", "Parser", "parseBlockStmt"); pb != nil {
+		return pb
+	}
+	if bps := m.blockParsers(); len(bps) == 1 {
+		return bps[0]
+	}
+	return nil
+}
+
 func (m *Model) RunBodyEntry(s *Sink, rule string) {
 	pm := m.extractPratt()
 	closers := map[int64]string{}
@@ -358,17 +398,7 @@ func (m *Model) RunBodyEntry(s *Sink, rule string) {
 		return
 	}
 	ps := m.Method("parser", "Parser", "parseStatement")
-	// the block parsers: parser functions that call the statement parser themselves and yield a block
-	var bps []*ssa.Function
-	for _, fn := range m.ModFns {
-		if fn.Blocks == nil || shortPkg(fnPkgPath(fn)) != "parser" || len(callsToFn(fn, ps)) == 0 {
-			continue
-		}
-		res := fn.Signature.Results()
-		if res.Len() == 1 && strings.HasSuffix(derefTypeString(res.At(0).Type()), "ast.BlockStmt") {
-			bps = append(bps, fn)
-		}
-	}
+	bps := m.blockParsers()
 	if len(bps) == 0 {
 		s.Undecided(rule, "block parser", "-", "no parser function that calls the statement parser and yields an *ast.BlockStmt")
 		return
